@@ -1,8 +1,103 @@
-(** C11: Hensel lifting (first version: executable-model milestone). *)
+(** C11: Hensel lifting preserves the factorisation modulo p^e.
+
+    Vocabulary (coq/Refine): [peqmod m a b] = "poly_mod (a - b) m is the zero polynomial"
+    (coefficientwise congruence modulo m); [lmonic a] = last coefficient 1; [canonical a] = no
+    trailing zero; [in_range m a] = all coefficients in [0, m); [goodlc p a] = a is 0 or its
+    leading coefficient is not divisible by p; [lprod fs] = product of the list. *)
+From Coq Require Import ZArith List Lia Znumtheory.
 From RNT.Model Require Import Base Poly PolyModP Hensel.
-From RNT.Refine Require Import PolyModStart.
+From RNT.Refine Require Import PolyModPArith PolyZmod MonicZ PolyModPGcd HenselProofs C11Lists PolyModStart.
+Import ListNotations.
 Open Scope Z_scope.
 
-(** [P] for e = 1 the factors are returned unchanged. *)
+(** [P] One step (Cohen 3.5.5), any modulus p > 1 dividing q (p need not be prime). *)
+Theorem hensel_step_spec : forall p q c a b u v a1 b1 qr,
+  1 < p -> 0 < q -> (p | q) -> lmonic a ->
+  peqmod q c (pmul opsZ a b) ->
+  peqmod p (padd opsZ (pmul opsZ a u) (pmul opsZ b v)) [1] ->
+  hensel_lift p q c a b u v = Done (a1, b1, qr) ->
+  qr = q * p /\
+  peqmod qr c (pmul opsZ a1 b1) /\ peqmod q a1 a /\ peqmod q b1 b /\
+  lmonic a1 /\ length a1 = length a /\
+  canonical a1 /\ in_range qr a1 /\ canonical b1 /\ in_range qr b1.
+Proof. exact hensel_step_spec. Qed.
+
+(** [P] ... and under these preconditions the step neither panics nor runs out of fuel. *)
+Theorem hensel_step_total : forall p q c a b u v,
+  1 < p -> 0 < q -> (p | q) -> lmonic a ->
+  exists a1 b1 qr, hensel_lift p q c a b u v = Done (a1, b1, qr).
+Proof. exact hensel_step_total. Qed.
+
+Example hensel_step_nonvacuous :
+  1 < 9 /\ (9 | 9) /\ lmonic [-3; 1] /\
+  peqmod 9 [3; 2; 1] (pmul opsZ [-3; 1] [-4; 1]) /\
+  peqmod 9 (padd opsZ (pmul opsZ [-3; 1] [1]) (pmul opsZ [-4; 1] [-1])) [1] /\
+  hensel_lift 9 9 [3; 2; 1] [-3; 1] [-4; 1] [1] [-1] = Done ([60; 1], [23; 1], 81).
+Proof. repeat split; try reflexivity; try lia. Qed.
+
+(** [P] Bezout witness: whenever the routine returns (the gcd it found is a unit), a u + b v = 1 mod p. *)
+Theorem coprime_witness_spec : forall p a b u v,
+  prime p -> goodlc p a -> goodlc p b ->
+  poly_coprime_witness a b p = Done (u, v) ->
+  peqmod p (padd opsZ (pmul opsZ a u) (pmul opsZ b v)) [1] /\
+  canonical u /\ in_range p u /\ canonical v /\ in_range p v.
+Proof. exact coprime_witness_list_spec. Qed.
+
+Example coprime_witness_nonvacuous :
+  prime 3 /\ goodlc 3 [1; 0; 1] /\ goodlc 3 [2; 1] /\
+  poly_coprime_witness [1; 0; 1] [2; 1] 3 = Done ([2], [1; 1]).
+Proof.
+  split; [exact prime_3|]. split; [|split; [|reflexivity]];
+    intros _ D; cbn in D; apply Z.divide_1_r in D; lia.
+Qed.
+
+(** [P] The whole lift (partial correctness: [lift_factorization] returns whenever all its
+    Bezout witnesses exist, which is the case for pairwise coprime factors). [g_i] monic,
+    [deg g_i = deg f_i], [g_i = f_i mod p], coefficients in [0, p^e), and
+    [lc(c) * prod g_i = c mod p^e], i.e. [prod g_i = c * lc(c)^(-1)]. *)
+Theorem lift_factorization_spec : forall p e c factors gs,
+  prime p -> 1 <= e -> ~ (p | last c 0) ->
+  factors <> [] -> Forall lmonic factors ->
+  peqmod p c (pmul opsZ (from_mono opsZ (last c 0)) (lprod factors)) ->
+  lift_factorization p e c factors = Done gs ->
+  Forall2 (fun g f => peqmod p g f /\ lmonic g /\ length g = length f) gs factors /\
+  peqmod (p ^ e) c (pmul opsZ (from_mono opsZ (last c 0)) (lprod gs)) /\
+  (forall inv, (last c 0 * inv) mod p ^ e = 1 -> peqmod (p ^ e) (lprod gs) (poly_mul c inv)) /\
+  (2 <= e -> Forall (fun g => canonical g /\ in_range (p ^ e) g) gs) /\
+  (e = 1 -> gs = factors).
+Proof. exact lift_factorization_list_spec. Qed.
+
+Example lift_factorization_nonvacuous :
+  prime 3 /\ ~ (3 | last [-5; 0; 5] 0) /\ Forall lmonic [[1; 1]; [2; 1]] /\
+  peqmod 3 [-5; 0; 5] (pmul opsZ (from_mono opsZ (last [-5; 0; 5] 0)) (lprod [[1; 1]; [2; 1]])) /\
+  lift_factorization 3 4 [-5; 0; 5] [[1; 1]; [2; 1]] = Done [[1; 1]; [80; 1]].
+Proof.
+  split; [exact prime_3|]. split; [intros [k Hk]; cbn in Hk; lia|].
+  split; [repeat constructor|]. split; vm_compute; reflexivity.
+Qed.
+
+(** [P] ... and it does return (no panic, no fuel exhaustion) when the monic factors are pairwise
+    coprime modulo p ([lcoprime p a b] = "a s + b t = 1 mod p for some s, t"), which is the
+    case for distinct monic irreducibles. Together with [lift_factorization_spec]: total correctness
+    of the lift under the stated preconditions. *)
+Theorem lift_factorization_total : forall p e c factors,
+  prime p -> ~ (p | last c 0) ->
+  factors <> [] -> Forall lmonic factors ->
+  (forall i j : nat, (i < j)%nat -> (j < length factors)%nat ->
+     lcoprime p (nth i factors []) (nth j factors [])) ->
+  peqmod p c (pmul opsZ (from_mono opsZ (last c 0)) (lprod factors)) ->
+  exists gs, lift_factorization p e c factors = Done gs.
+Proof. exact lift_factorization_list_total. Qed.
+
+(** [P] the Bezout witness exists for coprime arguments. *)
+Theorem coprime_witness_total : forall p a b,
+  prime p -> goodlc p a -> goodlc p b -> canonical a -> canonical b -> a <> [] \/ b <> [] ->
+  lcoprime p a b -> exists u v, poly_coprime_witness a b p = Done (u, v).
+Proof. exact coprime_witness_list_total. Qed.
+
+Example lcoprime_nonvacuous : lcoprime 3 [1; 1] [2; 1].
+Proof. exists [2], [1]. vm_compute. reflexivity. Qed.
+
+(** [P] for e = 1 the factors are returned unchanged (no precondition at all). *)
 Theorem lift_factorization_e1 : forall p c fs, lift_factorization p 1 c fs = Done fs.
 Proof. exact lift_factorization_e1. Qed.
